@@ -349,7 +349,7 @@ func (s *HopServer) AuthorizeKey(user string, publicKey keys.DHPublicKey) error 
 	}
 	akeys, err := core.ParseAuthorizedKeys(f)
 	if err != nil {
-		return nil
+		return err
 	}
 	logrus.Info("successfully parsed authorized keys file")
 	if akeys.Allowed(publicKey) {
